@@ -283,4 +283,14 @@ def demo : Program :=
 
 example : wf demo = true ∧ userHandlersUnsuccessful demo = true ∧ mapsTo demo ⟨.failure, 1⟩ = .failure := by decide
 
+/-! ### tie to the source: `RunTest._select_exception` / `_handler_for`
+`TTV.Generated.RunSkel.selectRules` is produced by `harness/pyskel.py` from `testtools/runtest.py` on every run. -/
+/-- the model's `select` is the interpretation of the selection rules found in the source, and `_handler_for`
+is the first-isinstance-match loop that `handlerFor` transcribes -/
+theorem C03_src_select (hs : Handlers) (es : List Exc) :
+    RunSkel.selInterp hs es Generated.RunSkel.selectRules = select hs es
+      ∧ Generated.RunSkel.handlerForIsFirstMatch = true := by
+  have e : Generated.RunSkel.selectRules = RunSkel.refSelect := by decide
+  rw [e]; exact ⟨RunSkel.selInterp_refSelect hs es, by decide⟩
+
 end TTV.Props.C03
